@@ -132,12 +132,21 @@ func childMain() {
 		}
 		res := runResult{Idx: p.Idx}
 		// two instances of the same module, each with a pristine default configuration
-		a, err := rt.InstantiateModule(ctx, cm, wazero.NewModuleConfig())
+		// Half of the programs use ONE default configuration value for both instances (and a configuration
+		// derived from it), the other half a pristine one each: the defaults must be per instance either way.
+		cfgA, cfgB := wazero.NewModuleConfig(), wazero.NewModuleConfig()
+		a, err := rt.InstantiateModule(ctx, cm, cfgA)
 		if err != nil {
 			out.Fault = "instantiate a: " + err.Error()
 			break
 		}
-		b, err := rt.InstantiateModule(ctx, cm, wazero.NewModuleConfig())
+		switch pi % 4 {
+		case 0:
+			cfgB = cfgA
+		case 1:
+			cfgB = cfgA.WithName("") // derived after the first use of cfgA
+		}
+		b, err := rt.InstantiateModule(ctx, cm, cfgB)
 		if err != nil {
 			out.Fault = "instantiate b: " + err.Error()
 			break
